@@ -354,6 +354,13 @@ func runTS(line []byte, rec *recorder) {
 			p := &astits.Packet{Header: h, AdaptationField: &astits.PacketAdaptationField{HasTransportPrivateData: true, TransportPrivateData: r.bytes(n), TransportPrivateDataLength: n}}
 			finishPacket(p, r, 0)
 			vec("private-data", p)
+			if n > 0 && n < 181 { // the redundant length field disagrees with the data: the bytes written follow the data
+				h2 := hdr()
+				h2.HasAdaptationField, h2.HasPayload = true, true
+				p2 := &astits.Packet{Header: h2, AdaptationField: &astits.PacketAdaptationField{HasTransportPrivateData: true, TransportPrivateData: r.bytes(n), TransportPrivateDataLength: r.pick(0, n-1, n+1, 255)}}
+				finishPacket(p2, r, 0)
+				vec("private-data-redundant-length", p2)
+			}
 		}
 	case "random":
 		for i := 0; i < sc.N; i++ {
